@@ -200,3 +200,125 @@ pub mod icmp {
         mk(a) == mk(b)
     }
 }
+
+/// The real `IcmpForwarder` on real raw sockets (needs CAP_NET_RAW; loopback is enough).
+pub mod icmp_live {
+    use crate::datagram_pipe::SendStatus;
+    use crate::forwarder::IcmpMultiplexer;
+    use crate::icmp_forwarder::{verif_hooks, IcmpForwarder};
+    use crate::settings::{
+        Http1Settings, IcmpSettings, ListenProtocolSettings, Settings,
+    };
+    use crate::{downstream, icmp_utils, log_utils};
+    use bytes::Bytes;
+    use std::io;
+    use std::net::IpAddr;
+    use std::sync::Arc;
+    use std::time::Duration;
+
+    pub struct Live {
+        forwarder: Arc<IcmpForwarder>,
+    }
+
+    pub struct Client {
+        mux: IcmpMultiplexer,
+    }
+
+    pub struct Reply {
+        pub peer: IpAddr,
+        pub type_id: u8,
+        pub code: u8,
+        pub responded: Option<(u16, u16)>,
+    }
+
+    impl Live {
+        pub fn new(
+            interface: &str,
+            request_timeout: Duration,
+            queue_capacity: usize,
+            ipv6: bool,
+        ) -> Result<Self, String> {
+            let settings = Settings::builder()
+                .listen_address("127.0.0.1:1")
+                .map_err(|e| e.to_string())?
+                .listen_protocols(ListenProtocolSettings {
+                    http1: Some(Http1Settings::builder().build()),
+                    http2: None,
+                    quic: None,
+                })
+                .ipv6_available(ipv6)
+                .icmp(
+                    IcmpSettings::builder()
+                        .interface_name(interface)
+                        .request_timeout(request_timeout)
+                        .recv_message_queue_capacity(queue_capacity)
+                        .build()
+                        .map_err(|e| format!("{:?}", e))?,
+                )
+                .build()
+                .map_err(|e| format!("{:?}", e))?;
+            Ok(Self {
+                forwarder: Arc::new(IcmpForwarder::new(Arc::new(settings))),
+            })
+        }
+
+        /// Runs `IcmpForwarder::listen` (never returns unless it fails)
+        pub async fn listen(&self) -> io::Result<()> {
+            self.forwarder.listen().await
+        }
+
+        pub fn client(&self) -> io::Result<Client> {
+            Ok(Client {
+                mux: self
+                    .forwarder
+                    .make_multiplexer(log_utils::IdChain::empty())?,
+            })
+        }
+
+        pub fn table_sizes(&self) -> (usize, usize) {
+            verif_hooks::table_sizes(&self.forwarder)
+        }
+    }
+
+    impl Client {
+        /// true = sent, false = dropped
+        pub async fn send(
+            &mut self,
+            peer: IpAddr,
+            identifier: u16,
+            sequence_number: u16,
+            ttl: u8,
+            data: &[u8],
+        ) -> io::Result<bool> {
+            let echo = icmp_utils::Echo {
+                code: 0,
+                identifier,
+                sequence_number,
+                data: Bytes::copy_from_slice(data),
+            };
+            let datagram = downstream::IcmpDatagram {
+                meta: downstream::IcmpDatagramMeta { peer },
+                message: if peer.is_ipv4() {
+                    icmp_utils::Message::V4(icmp_utils::v4::Message::Echo(echo))
+                } else {
+                    icmp_utils::Message::V6(icmp_utils::v6::Message::EchoRequest(echo))
+                },
+                ttl,
+            };
+            Ok(matches!(self.mux.1.write(datagram).await?, SendStatus::Sent))
+        }
+
+        pub async fn recv(&mut self) -> io::Result<Reply> {
+            let d = self.mux.0.read().await?;
+            Ok(Reply {
+                peer: d.meta.peer,
+                type_id: d.message.type_id(),
+                code: d.message.code(),
+                responded: d
+                    .message
+                    .responded_echo_request()
+                    .map(|e| (e.identifier, e.sequence_number)),
+            })
+        }
+    }
+}
